@@ -208,6 +208,24 @@ def _run_case(case):
                         rig0.top.broadcastEvent(YowLayerEvent(names[which % len(names)]))
             rig0.feed = feed_with_events
             out.label("events_between_chunks")
+        if case.get("sends_between_chunks"):
+            # the connection is used in both directions at once: frames are sent while an incoming frame is only partly there.  The
+            # two directions have nothing to do with each other: the incoming frames are still what the peer sent, and what went
+            # out is the sent frames, framed
+            feed1 = rig0.feed
+            counter1 = [0]
+            sent_frames = []
+
+            def feed_with_sends(chunk, _f=feed1):
+                _f(chunk)
+                counter1[0] += 1
+                for when, size in case["sends_between_chunks"]:
+                    if when == counter1[0]:
+                        f = frame_bytes(90 + len(sent_frames), size, 1)
+                        sent_frames.append(f)
+                        rig0.top.toLower(f)
+            rig0.feed = feed_with_sends
+            out.label("sends_between_chunks")
         if case.get("upper_raises"):
             # the layer above fails while it is handling some of the frames (it has been handed them: they count as delivered);
             # the feeder sees the exception and the connection goes on.  Every frame is still handed upward exactly once, in
@@ -255,6 +273,10 @@ def _run_case(case):
             out.info = {"inside": bool(inside)}
             return out
         res = check_stream(rig0, frames, cuts, 0)
+        if res is None and case.get("sends_between_chunks"):
+            wire = b"".join(bytes(x) for x in rig0.bottom.sent)
+            if wire != stream_of(sent_frames):
+                res = ("outgoing_between_chunks", {"sent_lengths": [len(f) for f in sent_frames], "on_the_wire": len(wire)})
         if res is not None:
             out.fail("incoming", "incoming:" + res[0], res[1])
         elif case.get("second_connection"):
@@ -449,6 +471,15 @@ def _enum_upper_raises():
                 yield {"sub": "stream", "lens": lens, "fills": [0], "cuts": cuts, "upper_raises": [k]}
 
 
+def _enum_sends_between_chunks():
+    # a frame goes out after every chunk of a short incoming stream, for every single cut position
+    for lens in ([300, 5], [4, 70000, 2]):
+        L = sum(3 + n for n in lens)
+        for cut in ([c for c in range(1, L)] if L < 400 else [1, 2, 3, 4, 10, 11, 12, 13, 14, 40000, L - 6, L - 5, L - 1]):
+            for size in (1, 7, 300):
+                yield {"sub": "stream", "lens": lens, "fills": [0], "cuts": [cut], "sends_between_chunks": [[1, size]]}
+
+
 def _enum_outgoing():
     for n in OUT_BOUNDARY:
         yield {"sub": "outgoing", "n": n, "fill": 0}
@@ -483,7 +514,9 @@ def stream_strategy(tier):
         fills = draw(st.lists(st.integers(0, 3), min_size=1, max_size=3))
         return {"sub": "stream", "lens": ls, "fills": fills, "cuts": sorted(set(cuts)), "second_connection": draw(st.integers(0, 3)) == 0,
                 "events_between_chunks": draw(st.one_of(st.just([]), st.lists(st.tuples(st.integers(1, 8), st.integers(0, 2)).map(list), min_size=1, max_size=3))),
-                "upper_raises": draw(st.one_of(st.just([]), st.just([]), st.lists(st.integers(0, 7), min_size=1, max_size=3)))}
+                "upper_raises": draw(st.one_of(st.just([]), st.just([]), st.lists(st.integers(0, 7), min_size=1, max_size=3))),
+                "sends_between_chunks": draw(st.one_of(st.just([]), st.lists(st.tuples(st.integers(1, 8), st.sampled_from([1, 5, 40, 300, 70000])).map(list),
+                                                                             min_size=1, max_size=3)))}
     return build()
 
 
@@ -531,6 +564,7 @@ def plan(tier):
             ("adversarial_fill_partitions", _enum_fills),
             ("outgoing_boundaries", _enum_outgoing),
             ("upper_layer_fails_on_a_frame", _enum_upper_raises),
+            ("sends_between_chunks", _enum_sends_between_chunks),
             ("many_small_frames_in_one_read", _enum_many_frames),
             ("through_the_dispatcher", _enum_dispatcher),
         ],
@@ -545,3 +579,4 @@ def plan(tier):
     }
 
 RULE += (" Also: a layer above failing on chosen frames while the stream goes on; streams of 200..4000 tiny frames; the stream read through the library's own asynchronous dispatcher class (socket double; bursts incl. multiples of its read size) and outgoing frames written through it while the socket takes only part of what it is offered.")
+RULE += (" Frames are also sent downward between the chunks of an incoming stream (sends_between_chunks): neither direction may disturb the other.")
